@@ -254,7 +254,12 @@ def execute(scn):
     if plant and cfg['dbg'] and base['halt'] == 'TRAP':
         pos = scn['meta']['pos'].get(str(plant['id']))
         unarmed = 'on error' not in scn['text']
-        if pos and base['line'] == pos[0] and unarmed:
+        # (only when the planted statement has its line to itself: the trap is
+        # located by line, and another statement of a joined line may fail first)
+        alone = pos is not None and \
+            sum(1 for k_, v_ in scn['meta']['pos'].items()
+                if v_[0] == pos[0] and '.' not in str(k_)) <= 1
+        if pos and base['line'] == pos[0] and unarmed and alone:
             res.count('planted_checked_' + plant['kind'])
             if base['trap'] != plant['trap']:
                 res.violation('C07:wrong-category',
